@@ -10,6 +10,7 @@ def check(ctx, prog):
     counters.rule_counters_bc(ctx, prog)
     counters.rule_counters_shaving(ctx, prog)
     counters.rule_counters_backtrack(ctx, prog)
+    counters.rule_backtrack_resumes(ctx, prog)
     search.rule_solve_one(ctx, prog, want=("R-COUNTER",))
     counters.rule_counter_writers(ctx, prog, thorough=ctx.tier == "thorough")
     counters.rule_stats_map(ctx, prog)
